@@ -157,6 +157,10 @@ def _case(ctx, yaw, case, A, B, sc, root, rng, embs, nc) -> None:
         transforms.append(("rows_shuffled+rotation", dict(emb="meridian_pole", order=rng.randrange(1 << 20))))
         transforms.append(("weights_unknown_x3", dict(emb="equator", wscale_unk=3.0)))
         transforms.append(("weights_reference_x0.37", dict(emb="equator", wscale_ref=0.37)))
+        # tiny and huge factors (powers of two, exact): no absolute weight scale may enter anywhere
+        transforms.append(("weights_unknown_x2^-40", dict(emb="equator", wscale_unk=2.0 ** -40)))
+        transforms.append(("weights_both_tiny", dict(emb="equator", wscale_unk=2.0 ** -30, wscale_ref=2.0 ** -27)))
+        transforms.append(("weights_reference_x2^40", dict(emb="equator", wscale_ref=2.0 ** 40)))
         for perm in list(itertools.permutations(range(nc)))[1:]:
             transforms.append((f"centres_permuted", dict(emb="equator", perm=perm)))
         transforms.append(("inherited_centres:pole", dict(emb="meridian_pole", inherit=True)))
